@@ -77,7 +77,7 @@ PLAN = {
         "level": "exploration",
         "rule": RULE_TRACE + RULE_LATTICE,
         "models": [MC("MC_P3_rem.cfg", W_REM), MC("MC_P3_euclid.cfg", "div_euclid / rem_euclid / min / max transcriptions on all valid pairs (both signs of the dividend): floor/ceil quotient, remainder bound, exactness on integers", "thorough")],
-        "traces": [T("arith_rem", (300, 20000), (12, 14)), T("lattice_rem", (128, 14), (6, 14))],
+        "traces": [T("arith_rem", (300, 20000), (12, 14)), T("lattice_rem", (128, 56), (6, 14))],
     },
     "C06": {
         "level": "model_checking",
